@@ -164,10 +164,14 @@ func rawVal(v interface{}) *cval { return &cval{form: "raw", raw: v} }
 func (g *vgen) faultFor(f *field, pre reflect.Value) (*cval, string) {
 	r := g.r
 	var dummy cfgStats
+	est := f.sub
+	if f.kind == kArrayComp {
+		est = f.elem.sub
+	}
 	subFault := func() (*cval, string) {
 		// an element object with one faulty primitive field
 		var prims []*field
-		for _, sf := range f.sub.fields {
+		for _, sf := range est.fields {
 			if sf.kind == kPrim && !sf.ignore && !sf.unexported {
 				prims = append(prims, sf)
 			}
@@ -177,7 +181,7 @@ func (g *vgen) faultFor(f *field, pre reflect.Value) (*cval, string) {
 		}
 		sf := prims[r.Intn(len(prims))]
 		v, kind := badPrim(r, sf.prim, hint{})
-		e := g.cfgStruct(f.sub, reflect.Value{}, false, &dummy)
+		e := g.cfgStruct(est, reflect.Value{}, false, &dummy)
 		e.fields[sf] = rawVal(v)
 		return e, kind
 	}
@@ -241,6 +245,55 @@ func (g *vgen) faultFor(f *field, pre reflect.Value) (*cval, string) {
 			} else {
 				c.list = append(c.list, g.setting(f.prim, hint{}))
 			}
+		}
+		return c, "array-elem:" + kind
+	case kArrayComp:
+		c := &cval{form: "list"}
+		n := f.typ.Len()
+		good := func(i int) *cval {
+			var e reflect.Value
+			if pre.IsValid() && i < pre.Len() {
+				e = pre.Index(i)
+			}
+			if f.elem.kind == kStruct {
+				return g.cfgStruct(est, e, true, &dummy)
+			}
+			return g.cfgField(f.elem, e, &dummy)
+		}
+		if r.Intn(3) == 0 {
+			if n > 1 && r.Intn(2) == 0 {
+				n--
+			} else {
+				n++
+			}
+			for i := 0; i < n; i++ {
+				c.list = append(c.list, good(i))
+			}
+			return c, "array-length"
+		}
+		// one faulty element; the elements before it are merged first
+		bad := r.Intn(n)
+		kind := ""
+		for i := 0; i < n; i++ {
+			if i != bad {
+				c.list = append(c.list, good(i))
+				continue
+			}
+			var e *cval
+			if f.elem.kind == kStruct && r.Intn(3) > 0 {
+				e, kind = subFault()
+			}
+			if e == nil {
+				var epre reflect.Value
+				if pre.IsValid() {
+					epre = pre.Index(i)
+				}
+				e, kind = g.faultFor(f.elem, epre)
+			}
+			if e == nil {
+				return nil, ""
+			}
+			c.list = append(c.list, e)
 		}
 		return c, "array-elem:" + kind
 	case kMapPrim:
